@@ -203,8 +203,11 @@ Ltac tidy := repeat match goal with
 
 Ltac fin := first
   [ assumption
-  | solve [simpl in *; rewrite ?app_length in *; simpl in *; tidy;
-           first [assumption | reflexivity | solve [auto 3] | lia]]
+  | solve [simpl in *; rewrite ?app_length in *; simpl in *;
+           repeat (match goal with |- context [if ?b then _ else _] => destruct b eqn:? end; simpl in *);
+           tidy;
+           first [assumption | reflexivity | solve [auto 3]
+                 | solve [repeat match goal with H : _ -> _ |- _ => clear H end; lia] | lia]]
   | apply Forall_filter_caller
   | solve [eapply Forall_inv_tail; eassumption]
   | solve [constructor] ].
@@ -223,7 +226,7 @@ Ltac caller_goal HC :=
   lazymatch goal with
   | |- ACaller _ _ _ (upd _ ?c _ c') =>
       unfold upd; destruct (Nat.eqb_spec c' c) as [->|?];
-      [ clear HC; constructor; simpl; fin
+      [ try open_caller HC c; clear HC; constructor; simpl; fin
       | (refine (ACaller_mono _ _ _ _ _ _ (HC c')); simpl; solve [auto | fin]) ]
   | |- _ => (refine (ACaller_mono _ _ _ _ _ _ (HC c')); simpl; solve [auto | fin])
   end.
@@ -245,7 +248,17 @@ Proof.
   intros [Hst Hcs Hqc Hqe Hfi Hpe Hic Htk Hqu HC] H.
   destruct l; open_label HC;
   try (match goal with H : take_nth _ _ = Some _ |- _ => pose proof (take_nth_len _ _ _ _ H) end);
-  (constructor; simpl; [ fin | fin | fin | fin | fin | fin | fin | fin | fin | caller_goal HC ]).
+  (constructor; simpl;
+   [ clear Hcs Hqc Hqe Hfi Hpe Hic Htk Hqu HC; fin
+   | clear Hst Hqc Hqe Hfi Hpe Hic Htk Hqu HC; fin
+   | clear Hcs Hqe Hfi Hpe Hic Htk Hqu HC; fin
+   | clear Hst Hcs Hqc Hfi Hpe Hic Htk Hqu HC; fin
+   | clear Hst Hcs Hqc Hqe Hpe Hic Htk Hqu HC; fin
+   | clear Hst Hcs Hqc Hqe Hic Htk Hqu HC; fin
+   | clear Hst Hcs Hqc Hqe Hfi Hpe Htk Hqu HC; fin
+   | clear Hst Hcs Hqc Hqe Hfi Hpe Hic Hqu HC; fin
+   | clear Hst Hcs Hqc Hqe Hfi Hpe Hic Htk HC; fin
+   | clear Hcs Hqe Hfi Hpe Hic Htk Hqu; caller_goal HC ]).
 Qed.
 
 Lemma invA_reachable cf s : reachable cf s -> InvA cf s.
